@@ -163,7 +163,7 @@ pub fn run_history(args: &Args, report: &Report, hs: u64) {
     let mut rng = rng_for(hs, &[1]);
     let b = rng.gen_range(0..100);
     // RocksDB histories cost seconds each (column-family creation and close fsync), so few of them in quick
-    let (m, r) = if args.is_thorough() { (70, 86) } else { (95, 98) };
+    let (m, r) = if args.is_thorough() { (80, 92) } else { (95, 98) };
     let backend = if b < m {
         Backend::Memory
     } else if b < r {
